@@ -93,6 +93,16 @@ class Report:
             self.bad(key, msg, detail=detail, **loc)
         return cond
 
+    def guard(self, rule_fn, ctx):
+        """Run one rule; a missing anchor is a violation of that rule, other rules still run."""
+        try:
+            rule_fn(ctx, self)
+        except AnchorMissing as e:
+            rid = self.cur or "anchor"
+            if rid not in self.rules:
+                self.rule(rid, "anchors")
+            self.bad("anchor", str(e) + " (fail closed: the rule cannot be evaluated)", rule=rid)
+
     def note(self, s):
         self.notes.append(s)
 
